@@ -88,6 +88,18 @@ def sw_lead_zero(t):
 SWITCHES = [("to-dec", sw_to_dec), ("lead-zero", sw_lead_zero), ("hex-upper", sw_hex_upper), ("regs-upper", sw_regs_upper),
             ("mn-upper", sw_mn_upper), ("comma-spaced", sw_comma_sp), ("bracket-spaced", sw_bracket_sp), ("indent", sw_indent),
             ("trailing-blanks", sw_trail), ("comment", sw_comment)]
+def sw_pad16(t):
+    """Every constant written as 0x followed by exactly 16 hex digits (the spelling that matters to SMART mov-immediate mode
+    must not matter anywhere else)."""
+    a, _, b = t.partition(" ")
+
+    def f(m):
+        s = m.group(1)
+        v = int(s, 0) if s.startswith("0x") else int(s, 10)
+        return "0x%016x" % v
+    return a + (" " + _num.sub(f, b) if b else "")
+
+
 def sw_indent_wide(t):
     return " " * 150 + t
 
@@ -108,7 +120,7 @@ def sw_bracket_wide(t):
     return re.sub(r"\[([^\]]*)\]", lambda m: "[" + " " * 60 + m.group(1) + " " * 60 + "]", t)
 
 
-EXTRA = [("comma-tight", sw_comma_tight), ("indent-tab", sw_indent_tab), ("to-hex", sw_to_hex), ("indent-150", sw_indent_wide),
+EXTRA = [("comma-tight", sw_comma_tight), ("indent-tab", sw_indent_tab), ("to-hex", sw_to_hex), ("pad16", sw_pad16), ("indent-150", sw_indent_wide),
          ("comma-120-blanks", sw_comma_wide), ("trailing-220-blanks", sw_trail_wide), ("comment-500-chars", sw_comment_long),
          ("bracket-120-blanks", sw_bracket_wide)]
 WRAPS = {"crlf": lambda t: t + "\r\n", "blank-before": lambda t: "\n" + t + "\n", "comment-line-before": lambda t: "; hello\n" + t + "\n",
@@ -131,7 +143,8 @@ def base_lines(tier):
                        a.get("scale"), a.get("dclass"), a.get("dsign"), a.get("sfit"), a.get("ufit"), a.get("spelling"), a.get("dk"))
             else:
                 key = (a.get("mnemonic"), a.get("form"), a.get("path"), a.get("kw"), (a.get("base") or "")[:2],
-                       "i" if a.get("index", "none") != "none" else "", a.get("dsign"), a.get("ufit"), a.get("spelling"))
+                       ("sp" if str(a.get("index", "none")).startswith("sp") else "i") if a.get("index", "none") != "none" else "",
+                       a.get("dsign"), a.get("ufit"), a.get("spelling"))
             if key not in seen:
                 seen[key] = c
     out = []
